@@ -217,11 +217,16 @@ class AsyncDatagramServer(_transports.AsyncBaseTransport, Generic[_T_Request, _T
         default_context: contextvars.Context,
     ) -> None:
         client_data.mark_running()
+        cancelled: bool = False
         try:
             await self.__client_coroutine_inner_loop(
                 request_handler_generator=datagram_received_cb(client_ctx),
                 client_data=client_data,
             )
+        except client_data.backend.get_cancelled_exc_class():
+            # The server is shutting down: do not start a new task for the datagrams still in the queue.
+            cancelled = True
+            raise
         finally:
             self.__on_client_coroutine_task_done(
                 datagram_received_cb=datagram_received_cb,
@@ -229,6 +234,7 @@ class AsyncDatagramServer(_transports.AsyncBaseTransport, Generic[_T_Request, _T
                 client_data=client_data,
                 task_group=task_group,
                 default_context=default_context,
+                cancelled=cancelled,
             )
 
     async def __client_coroutine_inner_loop(
@@ -284,9 +290,10 @@ class AsyncDatagramServer(_transports.AsyncBaseTransport, Generic[_T_Request, _T
         client_data: _ClientData,
         task_group: TaskGroup,
         default_context: contextvars.Context,
+        cancelled: bool = False,
     ) -> None:
         client_data.mark_done()
-        if client_data.queue_is_empty():
+        if cancelled or client_data.queue_is_empty():
             return
 
         client_data.mark_pending()
